@@ -395,3 +395,9 @@ def r11(ctx):
             ctx.ob(f"{Q}:sequence:{label}", bad is None, f"{len(want)} call(s) on {len(outs)} path(s): opcodes and concatenations as expected" if bad is None else
                    f"frames {label}: the calls give {[(repr(a), repr(b)[:60]) for a, b in bad[0]] if bad[0] else (bad[1].kind, bad[1].exc_class)}; expected "
                    f"{[(op, '+'.join(f'p{i}' for i in idxs)) for op, idxs, _ in want]}", loc, {"path": path_text(bad[1], 12)} if bad else None)
+
+
+@rule("R-C04-12", min_instances=2, title="a refused message is gone: after an invalid text message was rejected the reassembler is idle again, so the next message is not appended to (or delivered with the type of) the refused one")
+def r_sib_r_c04_12(ctx):
+    from .c06 import r5 as rejected_leaves_idle
+    rejected_leaves_idle(ctx)
